@@ -11,8 +11,9 @@ package generator
 // the configuration; stored key reused, else the request's key, else a generated key of the configured algorithm;
 // TBS manipulations applied to exactly their field (C03, C04, C06, C14, C19).
 //@ func BuildCertBody returns (res, err)
-//@   props C03 C04 C05 C06 C14 C19 C01
+//@   props C03 C04 C05 C06 C14 C19 C01 C20
 //@   let M = c.Manipulations
+//@   requires @C20 prk != nil ==> unboxRef(prk) != 0
 //@   ensures err == nil ==> res != nil && fresh(res) && res.TbsCertificate != nil && fresh(res.TbsCertificate) && res.Issuer != nil && fresh(res.Issuer)
 //@   ensures err != nil ==> res == nil
 //@   ensures @C06 err == nil ==> len(res.Extensions) == len(c.Extensions) && (forall k in [0, len(c.Extensions)) :: res.Extensions[k] == builderOf(old(c.Extensions[k])) && builderErr(old(c.Extensions[k])) == #nilAny)
